@@ -40,7 +40,7 @@ PLAN = {
 def generate(res, work, name, tier):
     module, cfg, sim, depth = UNIVERSES[name]
     if sim:
-        sim = sim % (8000 if tier == "thorough" else 2000)
+        sim = sim % (3000 if tier == "thorough" else 2000)
     raw = os.path.join(work, "gen_%s.out" % name)
     r = tlc(module, cfg, os.path.join(work, "gen_" + name), workers=(1 if sim else 8), timeout=2400, simulate=sim, depth=depth,
             seed_=seed() if sim else None, heap="12g", out_file=raw)
@@ -90,25 +90,35 @@ def replay(work, name, vec, shards=10, exts=""):
 
 
 def judge(work, name, outs, devs):
-    """TLC judges every shard; returns list of verdict dicts (with shard index)"""
+    """TLC judges every shard (in pieces of at most ~150 MB: the judge reads a whole trace file into memory);
+    returns list of verdict dicts (with shard index)"""
     verdicts = []
     procs = []
     for i, (ev, det) in enumerate(outs):
-        tr = os.path.join(work, "tr_%s.%d.ndjson" % (name, i))
-        with open(tr, "w") as f:
-            f.write(json.dumps({"ev": "Config", "devs": devs}) + "\n")
-            with open(ev) as g:
-                for line in g:
-                    f.write(line)
-        procs.append((i, tr))
+        part, size, f = 0, 0, None
+        with open(ev) as g:
+            for line in g:
+                if f is None or size > 150_000_000:
+                    if f:
+                        f.close()
+                    tr = os.path.join(work, "tr_%s.%d.%d.ndjson" % (name, i, part))
+                    f = open(tr, "w")
+                    f.write(json.dumps({"ev": "Config", "devs": devs}) + "\n")
+                    procs.append((i, part, tr))
+                    part, size = part + 1, 0
+                f.write(line)
+                size += len(line)
+        if f:
+            f.close()
     import concurrent.futures
 
     def one(args):
-        i, tr = args
-        r = tlc("Trace_Doc.tla", "Trace_Doc.cfg", os.path.join(work, "trd_%s_%d" % (name, i)), workers=1, timeout=2400,
+        i, part, tr = args
+        r = tlc("Trace_Doc.tla", "Trace_Doc.cfg", os.path.join(work, "trd_%s_%d_%d" % (name, i, part)), workers=1, timeout=2400,
                 env={"TRACE": tr}, trace_mode=True, heap="3g")
         if '"ACCEPTED"' not in r["out"]:
             raise ToolError("Trace_Doc did not consume %s:\n%s" % (tr, r["out"][-3000:]))
+        os.remove(tr)
         vs = prints(r["out"], "VERDICT")
         for v in vs:
             v["shard"] = i
